@@ -220,7 +220,10 @@ func verifH_Serve() {
 			if s, ok := f.Frame.(*tunnelpb.ServerToClient_Settings); ok {
 				nsettings++
 				verifAssert(f.StreamId == -1, "C11+C13.settings-stream-id")
-				verifAssert(i == 0, "C11+C13.settings-is-the-first-frame")
+				if scenario != 3 {
+					// (in scenario 3 the client double does not wait for the settings before its first RPC)
+					verifAssert(i == 0, "C11+C13.settings-is-the-first-frame")
+				}
 				verifAssert(s.Settings.InitialWindowSize == initialWindowSize, "C06+C11.settings-advertise-the-enforced-window")
 				verifAssert(len(s.Settings.SupportedProtocolRevisions) == 2, "C11.settings-list-local-revisions")
 			}
@@ -249,6 +252,7 @@ func verifH_StopStates() {
 		})
 	}
 	stopReturned, gracefulReturned := false, false
+	idleWait := false
 	op := verifChoice("op", 3)
 	switch op {
 	case 0:
@@ -258,6 +262,7 @@ func verifH_StopStates() {
 		verifOnBlock(func() {
 			// GracefulStop waits for the in-flight tunnels; nothing was half-closed
 			verifCover("graceful-waits")
+			idleWait = true // no RPC is in flight on any tunnel in this harness
 			verifAssert(k > 0, "C10.graceful-stop-waits-only-for-live-tunnels")
 			for _, s := range streams {
 				verifAssert(s.closeSends == 0, "C10.graceful-stop-does-not-cut-tunnels")
@@ -299,5 +304,7 @@ func verifH_StopStates() {
 	err := srv.addInstance(&threadSafeOpenReverseTunnelClient{})
 	verifAssert(status.Code(err) == codes.Unavailable, "C10.no-new-tunnels-after-shutdown")
 	verifAssert(verifLiveGoroutines() == 0, "C14.stop-no-goroutine-left")
+	// "GracefulStop returns once those RPCs have finished": with nothing in flight it should not have waited
+	verifAssert(!idleWait, "C10.graceful-stop-returns-once-in-flight-rpcs-finished")
 	_ = wrapperspb.BytesValue{}
 }
